@@ -428,8 +428,11 @@ def orphanLoop : Nat → List Nat → Prog Unit
   | f+1, c :: cs => do
     match ← lookup f c true with
     | none => delKey (.parTop c)
-    | some ce => do
-      putKey (.id c) (.tok { ce with parent := none })
+    | some _ => do
+      -- `clearParent` (repair F82): the entry is read again with the child's lock held and that copy is rewritten
+      match ← lookup f c true with
+      | none => pure ()
+      | some ce => putKey (.id c) (.tok { ce with parent := none })
       delKey (.parTop c)               -- `Delete(ctx, child)`: not the index entry `<parent>/<child>`
     orphanLoop f cs
 
